@@ -5,6 +5,7 @@ import (
 	"go/constant"
 	"go/token"
 	"go/types"
+	"os"
 	"sort"
 	"strings"
 
@@ -316,6 +317,9 @@ func c13(c *Ctx) {
 	r.Floor("R13.5", counts["assert"], 7)
 	d.dependencyAssertions()
 	c.checkBoundedWork()
+	if f := os.Getenv("VERIF_BCE_FILE"); f != "" {
+		c.bceCrossCheck(f, sites)
+	}
 }
 
 // siteKey: function + kind + ordinal of that kind inside the function (line-free).
